@@ -24,6 +24,7 @@ import (
 	"unsafe"
 
 	"github.com/NethermindEth/juno/consensus/propeller"
+	"github.com/NethermindEth/juno/consensus/propeller/merkle"
 	"github.com/NethermindEth/juno/consensus/propeller/reedsolomon"
 	"github.com/libp2p/go-libp2p/core/peer"
 	"verif/harness/lib"
@@ -98,6 +99,11 @@ type procScenario struct {
 	// Expect: the model's task counters after each step (tasks, publisherTasks[publisher of the
 	// step's unit]); the child waits (briefly) until the real counters get there, then reports them
 	Expect [][2]uint64 `json:"expect,omitempty"`
+	// Conc > 0 (conc.go): that many messages of different publishers are in flight at once, each created
+	// and handed over by a goroutine of its own; Steps is ignored. ConcLib > 0: the child runs the
+	// library-level concurrent family instead (Conc goroutines, ConcLib rounds; the race twin)
+	Conc    int `json:"conc,omitempty"`
+	ConcLib int `json:"conc_lib,omitempty"`
 }
 
 type procEvent struct {
@@ -117,6 +123,10 @@ type procLine struct {
 	PTasks *uint64 `json:"ptasks,omitempty"`
 	// final line: counters and number of live subprocessors once they have settled
 	Live *int `json:"live,omitempty"`
+	// monotonic time (ms since the child started) just before the step's hand-over and after the step
+	// was dealt with; used ONLY to decide whether an observation is conclusive (see timeoutOracle)
+	T0 int64 `json:"t0,omitempty"`
+	T1 int64 `json:"t1,omitempty"`
 	// evidence collected by the child (never inferred from the scenario)
 	Ev *procEvidence `json:"evidence,omitempty"`
 }
@@ -134,19 +144,33 @@ type procEvidence struct {
 
 // world of a scenario: deterministic from (n, local, publisher, msg, nonce)
 type procWorld struct {
-	ms       []member
-	local    member
-	pub      member
-	outsider member
-	cid      propeller.CommitteeID
-	nonce    uint64
-	msg      []byte
-	sched    *propeller.Scheduler
-	units    []propeller.Unit
-	k, c     int
-	localIdx int
-	keyless  peer.ID
-	variants map[int][]propeller.Unit
+	ms        []member
+	local     member
+	pub       member
+	outsider  member
+	cid       propeller.CommitteeID
+	nonce     uint64
+	msg       []byte
+	sched     *propeller.Scheduler
+	procSched *propeller.Scheduler
+	units     []propeller.Unit
+	k, c      int
+	localIdx  int
+	keyless   peer.ID
+	variants  map[int][]propeller.Unit
+	outUnits  []propeller.Unit
+}
+
+// outsiderUnits: the scenario's message published by the outsider (its own key, nonce + 7777).
+func (w *procWorld) outsiderUnits() []propeller.Unit {
+	if w.outUnits == nil {
+		us, err := propeller.CreatePropellerUnits(w.outsider.priv, &w.cid, propeller.Nonce(w.nonce+7777), w.msg, w.k, w.c)
+		if err != nil {
+			panic(err)
+		}
+		w.outUnits = us
+	}
+	return w.outUnits
 }
 
 // unitsOf: the units of message m of the publisher (m = 0: the scenario's message).
@@ -187,6 +211,12 @@ func newProcWorld(sc *procScenario) (*procWorld, error) {
 		return nil, err
 	}
 	w.sched = s
+	// the Scheduler handed to the code under test is a value of its own: the harness' look-ups (who is
+	// the designated sender of a unit?) must not run between two look-ups of the code under test — a
+	// scheduler that remembers its last answer would be reset by them
+	if w.procSched, err = propeller.NewScheduler(w.local.id, peerCommittee(w.ms)); err != nil {
+		return nil, err
+	}
 	w.k, w.c = s.NumDataShards(), s.NumCodingShards()
 	w.units, err = propeller.CreatePropellerUnits(w.pub.priv, &w.cid, propeller.Nonce(w.nonce), w.msg, w.k, w.c)
 	if err != nil {
@@ -226,7 +256,11 @@ func (w *procWorld) stepUnit(st procStepT) (*propeller.Unit, peer.ID) {
 	case "shard-tail-flip": // the LAST byte of the shard (a hash that drops the tail of a long leaf would not see it)
 		u.ShardData[0][len(u.ShardData[0])-1] ^= 0x40
 	case "proof-flip":
-		u.MerkleProof.Siblings[0][3] ^= 0x10
+		if len(u.MerkleProof.Siblings) > 0 {
+			u.MerkleProof.Siblings[0][3] ^= 0x10
+		} else {
+			u.MerkleProof.Siblings = append(u.MerkleProof.Siblings, merkle.Hash{1})
+		}
 	case "sig-flip":
 		u.Signature[5] ^= 0x04
 	case "index-oob":
@@ -251,6 +285,20 @@ func (w *procWorld) stepUnit(st procStepT) (*propeller.Unit, peer.ID) {
 		}
 	case "publisher-keyless":
 		u.Publisher = w.keyless
+	case "publisher-local": // names the receiver itself as publisher
+		u.Publisher = w.local.id
+	case "outsider-message":
+		// a unit of a message that a peer OUTSIDE the committee published and signed itself (everything
+		// about it is consistent: shards, proof, root, signature under the outsider's key), handed over by
+		// a committee member
+		us := w.outsiderUnits()
+		u = cloneUnit(&us[st.Unit%total])
+		for _, m := range w.ms {
+			if m.id != w.local.id && m.id != w.keyless {
+				sender = m.id
+				break
+			}
+		}
 	}
 	switch st.Sender {
 	case "other":
@@ -268,6 +316,15 @@ func (w *procWorld) stepUnit(st procStepT) (*propeller.Unit, peer.ID) {
 		sender = w.local.id
 	}
 	return u, sender
+}
+
+// routeClasses: the texts of the refusals of createSubprocessor -> the model's Refusal classes.
+var routeClasses = [][2]string{
+	{"same as the publisher", "self-published"},
+	{"not found in the peer list", "publisher-unknown"},
+	{"no usable public key", "no-key"},
+	{"tasks per publisher exceeded", "publisher-tasks"},
+	{"max tasks that the processor can handle", "max-tasks"},
 }
 
 // keylessID: a syntactically valid peer id that does not embed a public key — the SHA-256
@@ -306,6 +363,10 @@ func procChild(path string) {
 	if err != nil {
 		fmt.Fprintln(os.Stderr, "child:", err)
 		os.Exit(3)
+	}
+	if sc.Conc > 0 {
+		procConcChild(&sc, w)
+		return
 	}
 	out := bufio.NewWriter(os.Stdout)
 	emit := func(l procLine) {
@@ -380,7 +441,7 @@ func procChild(path string) {
 		for {
 			drain()
 			attempts++
-			err := p.ProcessMessage(ctx, u, sender, w.sched)
+			err := p.ProcessMessage(ctx, u, sender, w.procSched)
 			if err == nil {
 				return "nil"
 			}
@@ -397,7 +458,13 @@ func procChild(path string) {
 				}
 				time.Sleep(300 * time.Microsecond)
 			case strings.Contains(msg, "couldn't get processor channel"):
-				return "err:route"
+				// the reason (createSubprocessor's five refusals); an unrecognised text is "other"
+				for _, c := range routeClasses {
+					if strings.Contains(msg, c[0]) {
+						return "err:route:" + c[1]
+					}
+				}
+				return "err:route:other"
 			default:
 				return "err:other:" + msg
 			}
@@ -441,7 +508,10 @@ func procChild(path string) {
 		return tk, pt
 	}
 	prev := -2
+	childStart := time.Now()
+	ms := func() int64 { return int64(time.Since(childStart)/time.Millisecond) + 1 }
 	for i, st := range sc.Steps {
+		t0 := ms()
 		if st.Corrupt == "expire" {
 			// no unit: the subprocessor of message st.M runs into its time-out
 			tk, pt := await(i, w.pub.id, 4*cfg.StaleMessageTimeout+2*time.Second)
@@ -453,26 +523,27 @@ func procChild(path string) {
 				emit(procLine{Step: prev, Res: "events-of-previous", Events: pending, Note: note()})
 			}
 			pending = nil
-			emit(procLine{Step: i, Res: "nil", Tasks: &tk, PTasks: &pt})
+			emit(procLine{Step: i, Res: "nil", Tasks: &tk, PTasks: &pt, T0: t0, T1: ms()})
 			prev = i
 			continue
 		}
 		u, sender := w.stepUnit(st)
 		res := hand(u, sender)
+		t1 := ms() // ProcessMessage has looked at the finalized cache and the subprocessor map by now
 		// events drained while handing step i over belong to the steps before it
 		if prev != -2 {
 			emit(procLine{Step: prev, Res: "events-of-previous", Events: pending, Note: note()})
 		}
 		pending = nil
 		if sc.Once || res == "stuck" {
-			emit(procLine{Step: i, Res: res})
+			emit(procLine{Step: i, Res: res, T0: t0, T1: t1})
 		} else {
 			patience := time.Second
 			if sc.Patient {
 				patience = 20 * time.Second
 			}
 			tk, pt := await(i, u.Publisher, patience)
-			emit(procLine{Step: i, Res: res, Tasks: &tk, PTasks: &pt})
+			emit(procLine{Step: i, Res: res, Tasks: &tk, PTasks: &pt, T0: t0, T1: t1})
 		}
 		prev = i
 		if sc.Once {
@@ -716,6 +787,7 @@ func describeEvent(ev propeller.Event) procEvent {
 // parent
 
 type procRun struct {
+	stdout  string
 	lines   []procLine
 	crashed bool
 	stderr  string
@@ -775,6 +847,7 @@ func runProcChild(sc *procScenario) procRun {
 		}
 	}
 	pr.stderr = se.String()
+	pr.stdout = so.String()
 	if strings.HasPrefix(pr.stderr, "child:") && pr.machinery == "" {
 		pr.machinery = strings.TrimSpace(pr.stderr)
 		noteMachinery(pr.machinery)
@@ -799,6 +872,7 @@ type stepObs struct {
 	// task counters after the step
 	tasks, ptasks uint64
 	hasTasks      bool
+	t0, t1        int64
 }
 
 // slimScenario: the scenario without the (long) expectation list, for reports.
@@ -834,6 +908,7 @@ func collectEv(pr procRun, n int) (obs []stepObs, final string, notes []string, 
 		} else {
 			obs[l.Step].res = l.Res
 			obs[l.Step].seen = true
+			obs[l.Step].t0, obs[l.Step].t1 = l.T0, l.T1
 			if l.Tasks != nil && l.PTasks != nil {
 				obs[l.Step].tasks, obs[l.Step].ptasks, obs[l.Step].hasTasks = *l.Tasks, *l.PTasks, true
 			}
@@ -1047,6 +1122,7 @@ func procCase0(h *hctx, sc *procScenario, pre *procRun) {
 		// evaluated by the caller (delivery statistics)
 	case sc.ModelOnly:
 		h.res.Hit("proc:completed-several-messages")
+		timeoutOracle(h, sc, w, obs, bcasts, desc, rp)
 		if sc.Resend {
 			// per message: distinct honest units handed over, from their designated senders
 			perMsg := map[int]map[int]bool{}
@@ -1138,6 +1214,18 @@ func procCase0(h *hctx, sc *procScenario, pre *procRun) {
 			h.violate("processor-builds-below-threshold", desc, rp)
 		}
 	}
+	// a unit of a message published by a peer outside the committee must be REFUSED by ProcessMessage
+	// (nil would mean: a subprocessor exists for it, or its key was finalized — either needs an earlier
+	// acceptance)
+	for i, st := range sc.Steps {
+		if st.Corrupt == "outsider-message" && i < len(obs) && obs[i].seen {
+			h.res.Hit("proc:outsider-message-unit:" + firstWord(strings.Replace(obs[i].res, ":", " ", 2)))
+			if obs[i].res == "nil" {
+				h.violate("processor-accepts-unit-of-publisher-outside-committee",
+					fmt.Sprintf("step %d hands over a unit of a message published and signed by a peer that is NOT a committee member; ProcessMessage took it (answered nil): %s", i, desc), rp)
+			}
+		}
+	}
 	// the task counters, once everything has settled: `tasks` = Σ publisherTasks = number of live
 	// subprocessors (read from the real Processor; no model involved)
 	for _, l := range pr.lines {
@@ -1170,9 +1258,70 @@ func procCase0(h *hctx, sc *procScenario, pre *procRun) {
 	procModel(h, sc, w, obs, pr, rp, trace)
 }
 
+// timeoutOracle: a subprocessor that ran into its time-out FINISHES its message: the key is remembered
+// (finalized cache, for StaleMessageTimeout) and later units of the message are ignored — in particular
+// the local unit, already broadcast before the time-out, is not broadcast a second time. The cache
+// entry lives from the time-out (≥ creation + T) for T: a unit handed over and dealt with less than 2T
+// after the subprocessor's creation began is certainly inside that window. Time is measured ONLY to
+// decide whether the observation is conclusive (a child that was starved skips the oracle).
+func timeoutOracle(h *hctx, sc *procScenario, w *procWorld, obs []stepObs, bcasts []procEvent, desc string, rp map[string]any) {
+	if sc.StaleMs <= 0 {
+		return
+	}
+	firstStep, expiredAt := map[int]int{}, map[int]int{}
+	for i, st := range sc.Steps {
+		if st.Corrupt == "" {
+			if _, ok := firstStep[st.M]; !ok {
+				firstStep[st.M] = i
+			}
+		}
+		if st.Corrupt == "expire" {
+			if _, ok := firstStep[st.M]; ok {
+				if _, done := expiredAt[st.M]; !done {
+					expiredAt[st.M] = i
+				}
+			}
+		}
+	}
+	for m, e := range expiredAt {
+		f := firstStep[m]
+		late, conclusive := 0, true
+		for j := e + 1; j < len(sc.Steps); j++ {
+			st := sc.Steps[j]
+			if st.M != m || st.Corrupt != "" {
+				continue
+			}
+			late++
+			if j >= len(obs) || !obs[j].seen || obs[f].t0 == 0 || obs[j].t1 == 0 || obs[j].t1-obs[f].t0 >= int64(2*sc.StaleMs)*9/10 {
+				conclusive = false
+			}
+		}
+		if late == 0 {
+			continue
+		}
+		if !conclusive {
+			h.res.Hit("proc:timeout-oracle-skipped(child too slow to be conclusive)")
+			continue
+		}
+		h.res.Hit("proc:timeout-oracle-applied")
+		want := renderUnit(&w.unitsOf(m)[w.localIdx])
+		count := 0
+		for _, ev := range bcasts {
+			if ev.Unit == want {
+				count++
+			}
+		}
+		if count > 1 {
+			h.violate("processor-forgets-a-timed-out-message",
+				fmt.Sprintf("message %d: its subprocessor ran into the time-out (%d ms) after broadcasting the local unit; the message's units handed over right afterwards (within the life of the finalized-cache entry) started the message again: %d broadcasts of its local unit: %s",
+					m, sc.StaleMs, count, desc), rp)
+		}
+	}
+}
+
 func keepsKey(corrupt string) bool {
 	switch corrupt {
-	case "committee-flip", "nonce-plus1", "root-flip", "publisher-other":
+	case "committee-flip", "nonce-plus1", "root-flip", "publisher-other", "outsider-message", "publisher-local":
 		return false
 	}
 	return true
@@ -1327,16 +1476,22 @@ func procModel(h *hctx, sc *procScenario, w *procWorld, obs []stepObs, pr procRu
 		// end: a unit of another message key does not wait for this key's subprocessor, so events
 		// cannot be attributed to steps reliably)
 		impl := obs[i].res
-		if obs[i].res == "err:route" {
-			impl = "noroute"
+		if strings.HasPrefix(obs[i].res, "err:route") {
+			impl = "noroute" + strings.TrimPrefix(obs[i].res, "err:route")
+			h.res.Hit("proc:refused" + strings.TrimPrefix(obs[i].res, "err:route"))
 		}
 		mod := ans
 		f := strings.Fields(ans)
 		switch {
 		case ans == "ignored" || ans == "expired" || ans == "none":
 			mod = "nil"
-		case ans == "noroute":
-			mod = "noroute"
+		case strings.HasPrefix(ans, "noroute"):
+			mod = ans
+			if impl == "noroute:other" || impl == "noroute" {
+				// the refusal's text is not one of the five known: only refused / not refused is compared
+				errOtherHits.Add(1)
+				mod = impl
+			}
 		case len(f) == 4 && f[0] == "handled":
 			mod = "nil"
 			if f[1] != "-" {
@@ -1514,7 +1669,7 @@ func secProcessor(h *hctx, r *lib.RNG) {
 		h.violate("processor-not-wired", "the Processor of this tree cannot be driven: "+h.pcfg.describe(), map[string]any{"kind": "processor", "scenario": mk(4, 0, 1, 20, honestSteps([]int{0, 1, 2}))})
 		return
 	}
-	bad := []string{"shard-flip", "proof-flip", "sig-flip", "index-oob", "index-next", "shards-none", "committee-flip", "nonce-plus1", "root-flip", "publisher-other"}
+	bad := []string{"shard-flip", "proof-flip", "sig-flip", "index-oob", "index-next", "shards-none", "committee-flip", "nonce-plus1", "root-flip", "publisher-other", "publisher-local"}
 	var scs []*procScenario
 	add := func(sc *procScenario) { scs = append(scs, sc) }
 	// exhaustive for the smallest committees: every order of the honest units, with one forged unit
@@ -1679,6 +1834,22 @@ func secProcessor(h *hctx, r *lib.RNG) {
 			add(sc)
 		}
 	}
+	// the GLOBAL bound reached while the publisher's is not (refusal `max-tasks`), and both reached at
+	// once (the publisher's bound is checked first: `publisher-tasks`); a finished message frees the slot
+	for _, bd := range [][2]int{{2, 5}, {2, 2}, {3, 3}} {
+		n := 7
+		var st []procStepT
+		for m := 1; m <= bd[0]+1; m++ { // one unit each: k = 2, the subprocessors stay alive
+			st = append(st, procStepT{Unit: (m + 1) % (n - 1), Sender: "legit", M: m})
+		}
+		for _, i := range allIdx(n - 1) { // message 1 completes
+			st = append(st, procStepT{Unit: i, Sender: "legit", M: 1})
+		}
+		st = append(st, procStepT{Unit: 2, Sender: "legit", M: bd[0] + 1}, procStepT{Unit: 3, Sender: "legit", M: bd[0] + 2})
+		sc := mk(n, 0, 1, 31, st)
+		sc.MaxWorkers, sc.MaxPerPublisher, sc.ModelOnly = bd[0], bd[1], true
+		add(sc)
+	}
 	{
 		steps := append(garbage(0, 251, 0), garbage(1000, 1001, 6)...)
 		steps = append(steps, honestSteps(allIdx(6))...)
@@ -1691,6 +1862,20 @@ func secProcessor(h *hctx, r *lib.RNG) {
 		st := []procStepT{{Unit: 1, Sender: "legit"}, {Corrupt: "expire"}, {Unit: 2, Sender: "legit"},
 			{Unit: 2, Sender: "legit", M: 1}, {Corrupt: "expire", M: 1}, {Unit: 3, Sender: "legit", M: 1}}
 		sc := mk(n, 0, 1, 31, st)
+		sc.StaleMs, sc.ModelOnly = 800, true
+		add(sc)
+	}
+	// the LOCAL unit (broadcast at once), the time-out, the local unit again: a timed-out
+	// message is finished — nothing of it is processed (or broadcast) a second time
+	for _, nl := range [][2]int{{7, 0}, {8, 7}} {
+		w0, err := newProcWorld(mk(nl[0], nl[1], (nl[1]+1)%nl[0], 31, nil))
+		if err != nil {
+			continue
+		}
+		li := w0.localIdx
+		// (one unit after the time-out: the oracle needs it handed over while the cache entry certainly lives)
+		st := []procStepT{{Unit: li, Sender: "legit"}, {Corrupt: "expire"}, {Unit: li, Sender: "legit"}}
+		sc := mk(nl[0], nl[1], (nl[1]+1)%nl[0], 31, st)
 		sc.StaleMs, sc.ModelOnly = 800, true
 		add(sc)
 	}
@@ -1754,6 +1939,18 @@ func secProcessor(h *hctx, r *lib.RNG) {
 		sc := mk(n, 1, 0, 9, honestSteps(all)) // the keyless member is just present
 		sc.Keyless = true
 		add(sc)
+	}
+	// a peer OUTSIDE the committee publishes its own (consistently signed) message: every unit of it is
+	// refused, however often it tries and whatever is handed over in between (a look-up that remembers
+	// its last answer would refuse the first and take the second)
+	for _, n := range []int{3, 4, 5, 7, 8} {
+		total := n - 1
+		for _, lp := range [][2]int{{0, 1}, {n - 1, 0}} {
+			om := func(i int) procStepT { return procStepT{Unit: i % total, Corrupt: "outsider-message", Sender: "legit"} }
+			add(mk(n, lp[0], lp[1], 13, []procStepT{om(0), om(1), om(0), om(2)}))
+			add(mk(n, lp[0], lp[1], 13, append([]procStepT{om(0), om(0)}, honestSteps(allIdx(total))...)))
+			add(mk(n, lp[0], lp[1], 13, append(append([]procStepT{{Unit: 0, Sender: "legit"}, om(1), om(2)}, honestSteps(allIdx(total))...), om(0), om(1))))
+		}
 	}
 	// the model first: its task counters per step are what each child waits for
 	for _, sc := range scs {
